@@ -52,6 +52,7 @@ type Engine struct {
 	intrinsic map[string]bool
 	known     []KnownFinding
 	fnInfos   sync.Map
+	forkSites map[string]int
 }
 
 type InputRec struct {
@@ -59,6 +60,7 @@ type InputRec struct {
 	Label string  // for uf: function name
 	Terms []*Term // bytes: one per byte
 	Conc  int64   // choose
+	Args  []*Term // uf: argument bytes (all arguments, concatenated)
 }
 
 type Violation struct {
@@ -78,6 +80,7 @@ type CexVal struct {
 	Kind  string `json:"kind"`
 	Label string `json:"label,omitempty"`
 	Hex   string `json:"hex,omitempty"` // bytes / uf
+	Args  string `json:"args,omitempty"` // uf: argument bytes
 	Int   string `json:"int,omitempty"` // decimal for scalars / big
 }
 
@@ -130,6 +133,9 @@ type Worker struct {
 	solver *Solver
 	cross  []*Solver
 	consts map[*ssa.Const]Value
+	vars    map[int][]int
+	alone   map[int]SatResult
+	scratch *Solver
 }
 
 type Path struct {
@@ -157,6 +163,7 @@ type Path struct {
 	fnSteps   map[*ssa.Function]int
 	makeCap   int
 	pcSet     map[int]bool
+	pcVars    map[int]bool
 }
 
 func (p *Path) unsupported(msg string) pathAbort {
@@ -210,7 +217,14 @@ func (p *Path) stackStrings() []string {
 
 func (p *Path) fresh(prefix string, s Sort) *Term {
 	p.nvar++
-	return p.tb.Var(fmt.Sprintf("%s_%d", prefix, p.nvar), s)
+	tag := "b"
+	switch s.K {
+	case KBV:
+		tag = fmt.Sprint(s.W)
+	case KInt:
+		tag = "i"
+	}
+	return p.tb.Var(fmt.Sprintf("%s%s_%d", prefix, tag, p.nvar), s)
 }
 
 func (p *Path) assertPC(c *Term) {
@@ -222,6 +236,12 @@ func (p *Path) assertPC(c *Term) {
 		p.pcSet = map[int]bool{}
 	}
 	p.pcSet[c.id] = true
+	if p.pcVars == nil {
+		p.pcVars = map[int]bool{}
+	}
+	for _, v := range p.w.varsOf(c) {
+		p.pcVars[v] = true
+	}
 	if c.op == OAnd {
 		for _, a := range c.args {
 			p.pcSet[a.id] = true
@@ -288,9 +308,89 @@ func (p *Path) feasible(c *Term) SatResult {
 	if c.IsFalse() {
 		return Unsat
 	}
+	// a condition over variables the path condition does not mention is decided
+	// independently of it: answer from a per-worker cache of stand-alone queries
+	if p.independent(c) {
+		if r, ok := p.w.alone[c.id]; ok {
+			return r
+		}
+		if p.w.scratch == nil {
+			lp := ""
+			if p.e.cfg.LogDir != "" {
+				lp = fmt.Sprintf("%s/scratch-%d.smt2", p.e.cfg.LogDir, p.w.id)
+			}
+			s, err := NewSolver(p.e.cfg.Solver, p.e.cfg.TimeoutMs, lp)
+			if err == nil {
+				p.w.scratch = s
+			}
+		}
+		if p.w.scratch != nil {
+			p.e.countQuery("feas")
+			r, _ := p.w.scratch.Check(p.tb, c)
+			if len(p.w.scratch.defined) > 200000 {
+				p.w.scratch.NewPath()
+			}
+			if r != Unknown {
+				p.w.alone[c.id] = r
+				return r
+			}
+		}
+	}
 	p.e.countQuery("feas")
 	r, _ := p.w.solver.Check(p.tb, c)
 	return r
+}
+
+// varsOf returns the ids of the variables / UF applications a term depends on (memoised per TB).
+func (w *Worker) varsOf(t *Term) []int {
+	if v, ok := w.vars[t.id]; ok {
+		return v
+	}
+	var out []int
+	switch t.op {
+	case OConst:
+	case OVar:
+		out = []int{t.id}
+	default:
+		seen := map[int]bool{}
+		if t.op == OApp {
+			// an uninterpreted application constrains every other application of the same function
+			seen[-1-int(hashName(t.name))] = true
+		}
+		for _, a := range t.args {
+			for _, v := range w.varsOf(a) {
+				seen[v] = true
+			}
+		}
+		out = make([]int, 0, len(seen))
+		for v := range seen {
+			out = append(out, v)
+		}
+	}
+	w.vars[t.id] = out
+	return out
+}
+
+func hashName(s string) uint32 {
+	var h uint32 = 2166136261
+	for i := 0; i < len(s); i++ {
+		h ^= uint32(s[i])
+		h *= 16777619
+	}
+	return h & 0x3fffffff
+}
+
+func (p *Path) independent(c *Term) bool {
+	vs := p.w.varsOf(c)
+	if len(vs) == 0 || len(vs) > 64 {
+		return false
+	}
+	for _, v := range vs {
+		if p.pcVars[v] {
+			return false
+		}
+	}
+	return true
 }
 
 // branch decides a symbolic condition, forking when both sides are feasible.
@@ -325,6 +425,7 @@ func (p *Path) branch(c *Term) bool {
 	case rt != Unsat && rf != Unsat:
 		alt := append(append([]int{}, p.decisions...), 0)
 		p.e.enqueue(alt)
+		p.noteFork()
 		p.decisions = append(p.decisions, 1)
 		p.assertPC(c)
 		return true
@@ -355,6 +456,7 @@ func (p *Path) choose(lo, hi int) int {
 	for v := hi; v > lo; v-- {
 		alt := append(append([]int{}, p.decisions...), v)
 		p.e.enqueue(alt)
+		p.noteFork()
 	}
 	p.decisions = append(p.decisions, lo)
 	return lo
@@ -408,10 +510,68 @@ func (p *Path) concretize(t *Term, what string) uint64 {
 	for _, v := range vals[1:] {
 		alt := append(append([]int{}, p.decisions...), v)
 		p.e.enqueue(alt)
+		p.noteFork()
 	}
 	p.decisions = append(p.decisions, vals[0])
 	p.assertPC(tb.Eq(t, mk(vals[0])))
 	return uint64(vals[0])
+}
+
+func (p *Path) noteFork() {
+	if !debugForks || len(p.frames) == 0 {
+		return
+	}
+	// attribute to the innermost mixin frame
+	site := ""
+	for i := len(p.frames) - 1; i >= 0; i-- {
+		fr := p.frames[i]
+		if strings.Contains(fr.fn.String(), "mixin") {
+			site = fr.fn.String()
+			if fr.cur != nil {
+				pos := fr.cur.Pos()
+				if ifi, ok := fr.cur.(*ssa.If); ok && !pos.IsValid() {
+					pos = ifi.Cond.Pos()
+					if !pos.IsValid() {
+						if b, ok := ifi.Cond.(*ssa.BinOp); ok {
+							pos = b.X.Pos()
+							if !pos.IsValid() {
+								pos = b.Y.Pos()
+							}
+						}
+					}
+				}
+				if pos.IsValid() {
+					site += fmt.Sprintf(":%d", p.e.fset.Position(pos).Line)
+				}
+			}
+			break
+		}
+	}
+	p.e.mu.Lock()
+	if p.e.forkSites == nil {
+		p.e.forkSites = map[string]int{}
+	}
+	p.e.forkSites[site]++
+	p.e.mu.Unlock()
+}
+
+var debugForks = os.Getenv("GOSYM_DEBUG") != ""
+
+func (e *Engine) dumpForkSites() {
+	type kv struct {
+		s string
+		n int
+	}
+	var kvs []kv
+	for s, n := range e.forkSites {
+		kvs = append(kvs, kv{s, n})
+	}
+	sort.Slice(kvs, func(i, j int) bool { return kvs[i].n > kvs[j].n })
+	for i, x := range kvs {
+		if i < 25 {
+			fmt.Fprintf(os.Stderr, "FORKSITE %8d %s\n", x.n, x.s)
+		}
+	}
 }
 
 func (e *Engine) enqueue(prefix []int) {
@@ -494,7 +654,7 @@ func (e *Engine) Run() {
 		wg.Add(1)
 		go func(id int) {
 			defer wg.Done()
-			w := &Worker{id: id, e: e, tb: NewTB(), consts: map[*ssa.Const]Value{}}
+			w := &Worker{id: id, e: e, tb: NewTB(), consts: map[*ssa.Const]Value{}, vars: map[int][]int{}, alone: map[int]SatResult{}}
 			logp := ""
 			if e.cfg.LogDir != "" {
 				logp = fmt.Sprintf("%s/solver-%d.smt2", e.cfg.LogDir, id)
@@ -513,6 +673,9 @@ func (e *Engine) Run() {
 				}
 				e.mu.Unlock()
 				s.Close()
+				if w.scratch != nil {
+					w.scratch.Close()
+				}
 				for _, c := range w.cross {
 					c.Close()
 				}
@@ -529,11 +692,19 @@ func (e *Engine) Run() {
 				if npaths%200 == 0 && len(w.tb.tab) > 2_000_000 {
 					w.tb = NewTB()
 					w.consts = map[*ssa.Const]Value{}
+					w.vars = map[int][]int{}
+					w.alone = map[int]SatResult{}
+					if w.scratch != nil {
+						w.scratch.NewPath()
+					}
 				}
 			}
 		}(i)
 	}
 	wg.Wait()
+	if debugForks {
+		e.dumpForkSites()
+	}
 }
 
 func (e *Engine) inconclusive(msg string) {
@@ -645,6 +816,7 @@ func (p *Path) model(extra *Term) (SatResult, []CexVal, string) {
 	var ts []*Term
 	for _, in := range p.inputs {
 		ts = append(ts, in.Terms...)
+		ts = append(ts, in.Args...)
 	}
 	r, vals, why := p.w.solver.CheckModel(p.tb, extra, ts)
 	if r != Sat {
@@ -664,6 +836,14 @@ func (p *Path) model(extra *Term) (SatResult, []CexVal, string) {
 				k++
 			}
 			cv.Hex = sb.String()
+			if in.Kind == "uf" {
+				var ab strings.Builder
+				for range in.Args {
+					fmt.Fprintf(&ab, "%02x", vals[k].Uint64()&0xff)
+					k++
+				}
+				cv.Args = ab.String()
+			}
 		default:
 			v := vals[k]
 			k++
